@@ -20,6 +20,12 @@
  *   readsum <n> <il> <bufsz> => <fnv64> <Vtbufsize> | fail
  *   raw => <hex>        rawsum => <size> <fnv64>         detach|attach <r|w>|reopen => ok
  *   fpack <packtype> <fields_in_buf|*> <nrec> <fields|*> <hex buf> <hex fb/hex fb...> => <hex buf> <hex fb/...> | fail
+ *   packvs <interlace> <nvertices> <ivsize> <type:isize:off:order:namehex,...|-> <namehex> <classhex> <extag> <exref> <version>
+ *          <more> <flags> <findex:atag:aref,...|-> => <hex of the DFTAG_VH record, *size bytes>
+ *                                           vpackvs (vio.c) on a hand-built VDATA, before the Vdata scenario of the case (its
+ *                                           random numbers come from a separate stream: the scenario is what it was without
+ *                                           these lines).  The model answers with H4.Format.vpackvs and also runs the vpackvs
+ *                                           TRANSLATED from vio.c on the same arguments: a difference shows as ` GEN=`.
  *
  * Implementation-side oracles (no model involved): a shadow table in C (records x fields in memory representation):
  *   vs-read-data      every read of a FULL_INTERLACE vdata, and every batch-aligned read of a NO_INTERLACE vdata,
@@ -28,6 +34,7 @@
  *   vs-rc             return codes (write/read/seek counts, expected failures)
  *   vs-fpack          unpack == column of the shadow table; pack(unpack(buf)) == buf; return codes
  *   vs-overrun        (ASan) buffers are malloc'ed to the exact size
+ *   vs-packvs         vpackvs returns SUCCEED, *size is inside the buffer, the sentinel bytes behind the record are intact
  */
 #ifdef VS_MUT_VRW
 #include VS_MUT_VRW
@@ -333,7 +340,7 @@ static void do_reopen(void)
     schema_oracle("after-reopen");
 }
 
-static void run_case(int k)
+static void vdata_case(int k)
 {
     static char pathbuf[800];
     snprintf(pathbuf, sizeof pathbuf, "%s/v%d.hdf", hk_tmpdir, k);
@@ -541,6 +548,79 @@ static void run_case(int k)
     hk_stat(big ? "case_big" : medium ? "case_medium" : "case_small", 1);
     hk_stat("records_final", NV);
     if (k < 2) printf("SAMPLE vs nf=%d vil=%d ivsize=%d records=%ld first=%s:%d:%d\n", NF, VIL, IVSIZE, NV, F[0].name, (int)F[0].type, F[0].order);
+}
+
+/* ------------------------------------------------------------------ vpackvs on hand-built VDATA structs */
+static void hexname(const char *s) { hk_hex(s, strlen(s)); }
+static void gen_cname(char *dst, int maxlen)
+{
+    int l = hk_chance(15) ? 0 : hk_chance(10) ? (int)hk_range(0, maxlen) : (int)hk_range(1, 9);
+    for (int i = 0; i < l; i++) dst[i] = (char)(hk_chance(90) ? hk_range('a', 'z') : hk_range(1, 255));
+    dst[l] = 0;
+}
+static void packvs_rounds(void)
+{
+    enum { MAXPF = 40, MAXPA = 6, PNAME = 130 };
+    static char   names[MAXPF][PNAME + 1];
+    static char  *namep[MAXPF];
+    static int16  type[MAXPF];
+    static uint16 isz[MAXPF], off[MAXPF], ord[MAXPF];
+    static vs_attr_t al[MAXPA];
+    static uint8     pbuf[MAXPF * (8 + 2 + PNAME) + 2 * (2 + VSNAMELENMAX) + 200];
+    int rounds = (int)hk_range(1, 3);
+    for (int it = 0; it < rounds; it++) {
+        VDATA v; memset(&v, 0, sizeof v);
+        static const int IL[] = {0, 1, 0, 1, -1, 32767, -32768, 2};
+        v.interlace = (int16)HK_PICK(IL);
+        v.nvertices = hk_chance(60) ? (int32)hk_range(0, 1000) : (int32)(hk_next() & 0xffffffffu);
+        v.wlist.ivsize = (uint16)(hk_chance(70) ? hk_range(0, 300) : hk_range(0, 65535));
+        int n = hk_chance(12) ? 0 : hk_chance(8) ? (int)hk_range(9, MAXPF) : (int)hk_range(1, 8);
+        v.wlist.n = n; v.wlist.name = namep; v.wlist.type = type; v.wlist.isize = isz; v.wlist.off = off; v.wlist.order = ord;
+        for (int i = 0; i < n; i++) {
+            namep[i] = names[i]; gen_cname(names[i], PNAME);
+            type[i] = (int16)(hk_chance(70) ? TYPES[hk_range(0, 9)] : (int)hk_range(-32768, 32767));
+            isz[i] = (uint16)(hk_chance(70) ? hk_range(0, 64) : hk_range(0, 65535));
+            off[i] = (uint16)(hk_chance(70) ? hk_range(0, 300) : hk_range(0, 65535));
+            ord[i] = (uint16)(hk_chance(70) ? hk_range(1, 5) : hk_range(0, 65535));
+        }
+        gen_cname(v.vsname, VSNAMELENMAX); gen_cname(v.vsclass, VSNAMELENMAX);
+        v.extag = (uint16)(hk_chance(60) ? 0 : hk_range(0, 65535)); v.exref = (uint16)(hk_chance(60) ? 0 : hk_range(0, 65535));
+        static const int VV[] = {3, 3, 4, 4, 2, 0, -1, 32767, -32768, 5};
+        v.version = (int16)HK_PICK(VV);
+        v.more = (int16)(hk_chance(70) ? 0 : hk_range(-32768, 32767));
+        static const uint32_t FL[] = {0, 0, 1, 1, 1, 2, 3, 0x80000001u, 0xfffffffeu};
+        v.flags = HK_PICK(FL);
+        v.nattrs = (int)hk_range(0, MAXPA); v.alist = v.nattrs ? al : NULL;
+        for (int i = 0; i < v.nattrs; i++) {
+            al[i].findex = hk_chance(50) ? (int32)hk_range(-1, 8) : (int32)(hk_next() & 0xffffffffu);
+            al[i].atag = (uint16)(hk_chance(70) ? DFTAG_VH : hk_range(0, 65535)); al[i].aref = (uint16)hk_range(0, 65535);
+        }
+        printf("T vs packvs %d %d %u ", (int)v.interlace, (int)v.nvertices, (unsigned)v.wlist.ivsize);
+        if (n == 0) fputs("-", stdout);
+        for (int i = 0; i < n; i++) { printf("%s%d:%u:%u:%u:", i ? "," : "", (int)type[i], isz[i], off[i], ord[i]); hexname(names[i]); }
+        putchar(' '); hexname(v.vsname); putchar(' '); hexname(v.vsclass);
+        printf(" %u %u %d %d %u ", v.extag, v.exref, (int)v.version, (int)v.more, (unsigned)v.flags);
+        if (v.nattrs == 0) fputs("-", stdout);
+        for (int i = 0; i < v.nattrs; i++) printf("%s%d:%u:%u", i ? "," : "", (int)al[i].findex, al[i].atag, al[i].aref);
+        memset(pbuf, 0xA5, sizeof pbuf);
+        int32 size = -1;
+        int   rc = vpackvs(&v, pbuf, &size);
+        printf(" => ");
+        if (rc != SUCCEED || size < 1 || (size_t)size > sizeof pbuf - 8) { printf("fail\n"); hk_fail("vs-packvs", "vpackvs rc=%d size=%d", rc, (int)size); continue; }
+        hk_hex(pbuf, (size_t)size); printf("\n");
+        for (int i = 0; i < 8; i++) if (pbuf[size + i] != 0xA5) { hk_fail("vs-packvs", "vpackvs wrote behind *size=%d (offset +%d)", (int)size, i); break; }
+        hk_stat("packvs", 1);
+    }
+}
+
+static void run_case(int k)
+{
+    /* the record codec first, on its own random stream (the Vdata scenario below keeps the stream it always had) */
+    uint64_t keep[4]; memcpy(keep, hk_s, sizeof keep);
+    hk_next(); hk_next();
+    packvs_rounds();
+    memcpy(hk_s, keep, sizeof keep);
+    vdata_case(k);
 }
 
 int main(int argc, char **argv) { return hk_main(argc, argv, "vs"); }
